@@ -32,7 +32,7 @@ struct Shared {
 	uint64_t seq;
 	bool logging;
 	double wait_limit;   // real seconds a reader waits before the pipe is declared dead (deadlock guard)
-	Shared() : seq(0), logging(true), wait_limit(20.0) {}
+	Shared() : seq(0), logging(true), wait_limit(300.0) {}
 };
 
 // relay: given direction, index of the line in that direction and the line (without '\n'),
